@@ -1,0 +1,18 @@
+//go:build verif
+
+// Verification hook for properties C08-C10: lets a harness capture the events the core publishes,
+// in-process and synchronously. Add-only; compiled only with -tags verif.
+
+package the
+
+import (
+	"github.com/AliceO2Group/Control/common/event"
+	"github.com/AliceO2Group/Control/common/event/topic"
+)
+
+// VerifC08SetEventWriter installs w as the writer returned by EventWriterWithTopic(t).
+func VerifC08SetEventWriter(t topic.Topic, w event.Writer) {
+	mu.Lock()
+	defer mu.Unlock()
+	writers[t] = w
+}
